@@ -12,6 +12,9 @@ import (
 func VerifParseResourceID(id string) (string, string, error) { return parseResourceID(id) }
 
 // VerifNewNodeReconcile builds the daemon-side Node CR reconciler over an injected client.
+// The ERDMA device plugin (needs a kubelet socket) is not started.
 func VerifNewNodeReconcile(c client.Client, rec record.EventRecorder, nodeName string) reconcile.Reconciler {
-	return &nodeReconcile{client: c, record: rec, nodeName: nodeName}
+	r := &nodeReconcile{client: c, record: rec, nodeName: nodeName}
+	r.once.Do(func() {})
+	return r
 }
